@@ -36,6 +36,11 @@ def run(ctx, ss):
     for r, f in (("C01.1", c01_1), ("C01.2", c01_2), ("C01.3", c01_3), ("C01.4", c01_4),
                  ("C01.5", c01_5), ("C01.6", c01_6), ("C01.7", c01_7), ("C01.8", c01_8)):
         ctx.guard(r, f, ss)
+    # shared clauses: the lookup of a mother's table (C09.5) and the numeric / Define'd parameter conversion (C05.3)
+    from .c05 import _as, c05_3
+    from .c09 import c09_5
+    ctx.guard("C01.8", lambda c, s: _as(c, s, c09_5, "C01.8"), ss)
+    ctx.guard("C01.9", lambda c, s: _as(c, s, c05_3, "C01.9"), ss)
 
 
 # ---------------------------------------------------------------------------------------
@@ -233,6 +238,10 @@ def c01_4(ctx, ss):
                 ctx.holds("C01.4", k + " :: flag", where(ff, st), "with the flag present and display on, the prefix is added", len(conds) + 1)
             else:
                 ctx.violation("C01.4", k + " :: flag", where(ff, st), "the PHOTOS prefix additionally depends on something other than the line's flag and the display option")
+    dflt = ff.node.args.defaults
+    okd = len(dflt) == 1 and isinstance(dflt[0], ast.Constant) and dflt[0].value is True
+    (ctx.holds if okd else ctx.violation)("C01.4", ckey(ff, None, "default"), where(ff, ff.node),
+                                          "the PHOTOS flag is reported by default" if okd else "display_photos_keyword no longer defaults to True: the PHOTOS flag of a line is not reported by default")
     # the four fields
     rets = returns(ff)
     if len(rets) != 1:
@@ -470,6 +479,33 @@ def c01_6(ctx, ss):
                 if isinstance(lst_side, ast.List) and len(lst_side.elts) == 1 and isinstance(n_side, ast.BinOp) and isinstance(n_side.op, ast.Sub) \
                         and isinstance(n_side.right, ast.Constant) and n_side.right.value == 1 and ".count(" in txt(n_side.left):
                     okc = True
+        # the schedule covers EVERY repeated mother: loop over all duplicated names, guard only `count > 1`
+        for x in ext:
+            lps = enclosing(ff, x, (ast.For,))
+            kk2 = ckey(ff, None, "all-duplicates")
+            if not lps:
+                ctx.violation("C01.6", kk2, where(ff, x), "removals are not scheduled in a loop over the repeated mothers")
+                continue
+            src = txt(flow.expand(lps[0].iter))
+            names_src = "self.list_decay_mother_names()"
+            want_src = {f"__phi__(set(), {{__elem__({names_src}) for n in {names_src} if {names_src}.count(__elem__({names_src})) > 1}})",
+                        f"{{__elem__({names_src}) for n in {names_src} if {names_src}.count(__elem__({names_src})) > 1}}", f"set({names_src})", names_src}
+            conds = [(txt(flow.expand(e, keep={txt(lps[0].target)})), pol) for kind, e, pol in guards.path_conditions(lps[0], stmt_of(ff, x)) if kind == "if"]
+            okg = conds in ([], [(f"{names_src}.count({txt(lps[0].target)}) > 1", True)])
+            exits = any(isinstance(y, (ast.Break, ast.Continue)) for y in ast.walk(lps[0]))
+            if src in want_src and okg and not exits:
+                ctx.holds("C01.6", kk2, where(ff, lps[0]), "removals are scheduled for every mother that occurs more than once", 3)
+            else:
+                ctx.violation("C01.6", kk2, where(ff, lps[0]),
+                              f"removals are scheduled over `{src[:120]}` under {conds}: some repeated mothers keep all their blocks")
+            # the set of duplicated names must be computed whenever there are duplicates
+            dd = [d for d in flow.defs if isinstance(lps[0].iter, ast.Name) and d.name == lps[0].iter.id and d.kind == "assign" and isinstance(d.value, ast.SetComp)]
+            for d in dd:
+                c2 = [(txt(flow.expand(e)), pol) for kind, e, pol in guards.path_conditions(ff.node, d.stmt) if kind == "if"]
+                okd = c2 in ([], [(f"self.number_of_decays != len(set({names_src}))", True)], [(f"len({names_src}) != len(set({names_src}))", True)])
+                (ctx.holds if okd else ctx.violation)("C01.6", ckey(ff, None, "duplicates-computed"), where(ff, d.stmt),
+                                                      "the duplicated names are computed whenever the number of tables exceeds the number of distinct mothers" if okd
+                                                      else f"the duplicated names are only computed under {c2}")
         # the pending collection must be able to hold a name several times
         init = [d for d in flow.defs if d.name == lst and d.kind == "assign"]
         multi = bool(init) and all(isinstance(d.value, ast.List) or (isinstance(d.value, ast.Call) and txt(d.value.func) in ("list", "Counter", "collections.Counter")) for d in init)
